@@ -6,8 +6,8 @@ import json, os, subprocess, sys
 V = os.path.dirname(os.path.dirname(os.path.abspath(__file__)))
 
 ENG = {
-    "puremon": ("harness/cmd/puremon", "assertion monitors on pure functions: algebraic laws over exhaustive / boundary / seeded inputs, child process per batch, checkptr build (ASan build in the thorough tier)"),
-    "refmon": ("harness/cmd/refmon", "differential monitors on the public API: executable reference models and metamorphic relations between two real executions, child process per batch"),
+    "puremon": ("harness/cmd/pure_*", "assertion monitors on pure functions: algebraic laws over exhaustive / boundary / seeded inputs, child process per batch, checkptr build (ASan build in the thorough tier)"),
+    "refmon": ("harness/cmd/ref_*", "differential monitors on the public API: executable reference models and metamorphic relations between two real executions, child process per batch"),
     "concmon": ("harness/cmd/concmon", "stress drivers under the Go race detector with the real background WAL writer, client-boundary histories checked by porcupine / exactly-once / order checkers"),
     "crashlab": ("harness/cmd/crashlab", "strace-recorded syscall logs of a real workload process; every syscall prefix (and power-loss variants) materialised as a crash state, real restart, model of the acknowledged history"),
     "fsguard": ("harness/cmd/fsguard", "strace-based path-confinement monitor plus decoy-tree comparison for hostile bucket keys"),
@@ -23,6 +23,53 @@ add("C10", "puremon", "exploration",
     "Every nanosecond offset of a 1-second interval (thorough: all 10^9, each exactly once; quick: every 997th plus both ends) and boundary + seeded offsets of every other timeframe are encoded and decoded by the real functions and the round-trip law (same interval, 0 <= t-t' <= res, monotone, exact for 1Sec) asserted on each; held-on-what-was-run, exhaustive only for the 1Sec clause.",
     "Trusts that the write/read paths call the two functions with the arguments the monitor uses (the end-to-end path is C09); float behaviour of this machine's amd64 build.",
     "runtime assertion monitor on the real encode/decode functions, exhaustive for 1Sec", "DESIGN.md section 4 C10")
+
+CRASH_NOTE = ("Crash model applied to a recorded strace log of the real server code (every syscall boundary is a crash point; overlapping calls ordered by completion); "
+              "restart = the real start-up on the materialised tree on tmpfs with sync(2) made a no-op by strace injection; judge = independent model of the acknowledged history and independent WAL decoder. "
+              "Held on the histories generated for the seed, not a proof. Known findings (known_findings.json) are matched by trigger computed from the log, not by symptom.")
+
+add("C01", "crashlab", "fault_enumeration",
+    "Every prefix of the file-mutating system calls of each generated history (inline and background WAL writer, fixed + variable buckets, year boundary, repeated intervals) is restarted for real; every acknowledged record must be returned and every fixed interval must hold the last acknowledged (or an in-flight) value.",
+    CRASH_NOTE, "syscall-log crash-state enumeration + real restart + history model", "DESIGN.md 3.1, 4 C01")
+add("C02", "crashlab", "fault_enumeration",
+    "Same enumeration as C01; oracle: no phantom or torn row, every variable record exactly once, in-flight requests all-or-nothing. Duplicates/partial requests are accepted only where the listed defects F-DUP / F-SPLIT predict them from the log.",
+    CRASH_NOTE, "syscall-log crash-state enumeration + multiset model with unique payloads", "DESIGN.md 3.1, 4 C02")
+add("C03", "crashlab", "fault_enumeration",
+    "Same enumeration as C01; oracle: the real start-up exits normally on every crash state and every bucket whose creating write was acknowledged is listed and queryable.",
+    CRASH_NOTE, "syscall-log crash-state enumeration + real restart", "DESIGN.md 3.1, 4 C03")
+add("C04", "crashlab", "fault_enumeration",
+    "At acknowledgement / fsync / sync / truncation prefixes (thorough: every prefix for a subset) the not-yet-synced writes are dropped, reordered or torn in a bounded set of patterns (size shrinking or surviving as zeros); every distinct tree is restarted for real and the acknowledged history must be returned.",
+    CRASH_NOTE + " Power-loss model: only data after the file's last fsync / the last sync(2) is volatile; metadata operations are ordered and durable.", "power-loss model over a recorded syscall log + real restart", "DESIGN.md 3.1, 4 C04")
+add("C05", "crashlab", "fault_enumeration",
+    "Recorded runs with the real background WAL loop (ms timers, rotation, 1-4 writers): (1) the decoded WAL message stream interleaved with fsync/sync/ftruncate/primary writes/acks is checked against protocol invariants I1-I6; (2) every crash prefix and one checksum-mismatch state per transaction is restarted for real (acknowledged transactions present in commit order; damaged record leaves no trace). Trace conformance of observed interleavings, not model checking.",
+    CRASH_NOTE, "offline trace checker over the syscall log + crash-state enumeration", "DESIGN.md 4 C05")
+add("C06", "crashlab", "fault_enumeration",
+    "Byte-level mutants of a real WAL (truncation at every offset, bit flips in every structural field and across payloads, overwrites, inserted garbage, duplicated/swapped records, extreme length fields, zero tails) are each restarted for real; oracle MUST / MUSTNOT / MAY per transaction, no panic, no hang; ASan build of the restart in the thorough tier.",
+    "Damage confined to the WAL file. Hang = 60 s watchdog. " + CRASH_NOTE, "mutation of a recorded artefact + real restart + MUST/MUSTNOT/MAY oracle", "DESIGN.md 4 C06")
+add("C07", "crashlab", "exploration",
+    "Real background WAL loop with 2-16 concurrent writers under strace: every writer queries its own intervals right after WriteCSM returned (visible) and every acknowledgement marker must be preceded in the syscall log by a WAL fsync after the request's WAL record (durable).",
+    "In-process API boundary; schedules are those that occurred (overlapping flush requests are counted).", "client-boundary read-your-write monitor + syscall-trace durability check", "DESIGN.md 4 C07")
+add("C16", "fsguard", "exploration",
+    "A traced server-side process serves generated hostile keys through Create/Write/Query/GetInfo/Destroy/SQL; every path of a mutating system call must resolve below the root and a decoy tree around the root must stay byte-identical.",
+    "No symlinks below the root (asserted). strace sees every syscall of the child.", "strace path-confinement monitor + decoy tree comparison", "DESIGN.md 4 C16")
+add("C17", "concmon", "exploration",
+    "Sequential operation sequences (oracle after every step) and concurrent rounds under -race (oracle at quiescence): the running catalog's (bucket, year) set == directory walk == fresh catalog load; listed buckets queryable. Concurrent cases without Destroy are judged strictly; with Destroy the listed defect F-CATRACE may apply.",
+    "Restart represented by a fresh catalog load. Race reports depend on schedules that occurred.", "invariant check at quiescent points + race detector", "DESIGN.md 4 C17")
+add("C18", "concmon", "exploration",
+    "-race runs: 8 writers + 4 readers on shared intervals with the real background WAL loop; no race report, panic or query error; rows whole and from writes invoked before the query returned; variable results contain everything acknowledged before the query; fixed intervals linearizable as registers (porcupine per bucket x interval).",
+    "Schedules that occurred; porcupine partitions > 400 ops skipped and counted; F-CONT reader-side errors matched by trigger.", "Go race detector + client-boundary history checked with porcupine", "DESIGN.md 4 C18")
+add("C26", "concmon", "exploration",
+    "-race runs of the real GRPCReplicationServer + Sender with in-memory replica streams opening/closing/reconnecting at seeded points during fan-out: no crash, no race, producer finishes, every replica's sequence gap-free and in order, permanently connected replicas receive everything.",
+    "In-memory fakes of grpc.ServerStream; disconnect = next Send fails.", "stress under the race detector + per-replica order/no-loss checker", "DESIGN.md 4 C26")
+add("C32", "concmon", "exploration",
+    "-race runs: recording triggers with 3-5 patterns, 1-8 concurrent writers, real background loop; after graceful shutdown the multiset of deliveries equals the independently computed expectation (pattern = path-component prefix glob), with index and payload.",
+    "Fixed requests carry one row per interval.", "exactly-once checker over recorded deliveries + race detector", "DESIGN.md 4 C32")
+add("C34", "crashlab", "fault_enumeration",
+    "Two-level enumeration: first-level crash states with un-checkpointed transactions are restarted under strace; every prefix of each recovery's mutating calls is restarted again and once more; acknowledged history returned, no old WAL left, own WAL never removed, old WAL unlinked only after its primary writes and a sync, a further restart changes nothing.",
+    CRASH_NOTE, "two-level syscall-log crash-state enumeration + recovery-trace checker", "DESIGN.md 4 C34")
+add("C35", "crashlab", "fault_enumeration",
+    "Runs with the real background loop ended by graceful Shutdown() at seeded points (also with a request in flight): dumps of the full query and six restricted queries per bucket before the request, after Shutdown() and after a real restart must agree; the WAL left behind must need no replay.",
+    CRASH_NOTE, "record + compare of client-visible results across shutdown/restart", "DESIGN.md 4 C35")
 
 ALL = [json.loads(l) for l in open(os.path.join(V, "properties.jsonl"))]
 
